@@ -16,7 +16,7 @@ def isAtomNode : Node → Bool
 def propShape : Node → Bool
   | .pname .. => true
   | .other "Computed" _ ["expression"] [_] => true
-  | .other _ _ _ vs => vs.all isAtomNode
+  | .other k _ _ vs => k == "PrivateName" && vs.all isAtomNode
   | _ => false
 
 /-- the shapes of a compound-assignment target in JavaScript: identifier, member access, `super`
@@ -24,7 +24,7 @@ def propShape : Node → Bool
 def tshape : Node → Bool
   | .ident .. => true
   | .member _ p _ => propShape p
-  | .other "SuperPropExpression" _ ["obj", "property"] [.other _ _ _ [], p] => propShape p
+  | .other "SuperPropExpression" _ ["obj", "property"] [.other "Super" _ _ [], p] => propShape p
   | .paren e _ => tshape e
   | _ => false
 
